@@ -4,6 +4,9 @@ package model
 // unexported construction paths of package model. Never committed to istio/istio.
 
 import (
+	"sync"
+
+	"istio.io/istio/pkg/network"
 	meshconfig "istio.io/api/mesh/v1alpha1"
 	"istio.io/istio/pkg/config"
 	"k8s.io/apimachinery/pkg/types"
@@ -118,4 +121,14 @@ func VerifWorld(m *meshconfig.MeshConfig, svcs []*Service, store *VerifStore) *E
 	env.VirtualServiceController = &VirtualServiceController{outputs: Outputs{MergedVirtualServices: verifMergedVS{store: store}}}
 	env.Init()
 	return env
+}
+
+// VerifSingleNetwork gives the push context a network manager without any network gateway (single-network mesh).
+func VerifSingleNetwork(ps *PushContext) {
+	ps.ambientIndex = &NoopAmbientIndexes{}
+	mu := &sync.RWMutex{}
+	ps.networkMgr = &NetworkManager{
+		NetworkGateways: &NetworkGateways{mu: mu, byNetwork: map[network.ID][]NetworkGateway{}, byNetworkAndCluster: map[networkAndCluster][]NetworkGateway{}},
+		Unresolved:      &NetworkGateways{mu: mu, byNetwork: map[network.ID][]NetworkGateway{}, byNetworkAndCluster: map[networkAndCluster][]NetworkGateway{}},
+	}
 }
